@@ -334,7 +334,8 @@ failure:
 		dense_pchk_matrix_simplified = NULL;
 	}
 	OF_EXIT_FUNCTION
-	return OF_STATUS_FAILURE;
+	/* nothing (more) could be solved, which is not a failure if all source symbols are already available */
+	return (of_is_decoding_complete ((of_session_t*)ofcb) ? OF_STATUS_OK : OF_STATUS_FAILURE);
 
 no_mem:
 	OF_PRINT_ERROR(("out of memory"))
